@@ -85,6 +85,7 @@ type RecStats struct {
 	FillerBursts int            `json:"filler_bursts"`
 	FillerOps    int            `json:"filler_ops"`
 	ByRegion     map[string]int `json:"queries_by_region"`
+	Named        int            `json:"named_cells_compared_with_their_rectangle"`
 }
 
 func NewRecStats() *RecStats {
@@ -113,6 +114,7 @@ func (s *RecStats) Add(o *RecStats) {
 	addMap(s.ByCmd, o.ByCmd)
 	addMap(s.Skipped, o.Skipped)
 	addMap(s.ByRegion, o.ByRegion)
+	s.Named += o.Named
 }
 
 // hungError: a query or TEST command that the server did not answer within queryPatience.
@@ -433,6 +435,25 @@ func (r *recorder) query() error {
 			kind = "GET(" + r.live[n] + ")"
 		}
 	}
+	// a named cell: every other time four points are first placed just inside its borders (a thousandth of its span)
+	if rect, named := NamedRect(area); named && r.rng.Intn(2) == 0 {
+		mla, mlo := (rect[0]+rect[2])/2, (rect[1]+rect[3])/2
+		dla, dlo := (rect[2]-rect[0])/1000, (rect[3]-rect[1])/1000
+		for _, p := range [][2]float64{{rect[0] + dla, mlo}, {rect[2] - dla, mlo}, {mla, rect[1] + dlo}, {mla, rect[3] - dlo}} {
+			n := 1 + r.rng.Intn(r.o.Pool)
+			if _, err := r.do("SET", r.key(), idName(n), "POINT", Fmt(p[0]), Fmt(p[1])); err != nil {
+				return err
+			}
+			e := newEvent("set", r.o.Run)
+			e.K, e.IDs = r.cur, []int{n}
+			r.ev = append(r.ev, e)
+			r.live[n] = "POINT-border"
+			r.st.Kinds["POINT-border"]++
+		}
+		if len(r.live) > r.st.MaxLive {
+			r.st.MaxLive = len(r.live)
+		}
+	}
 	var clips [][]string
 	clipName := ""
 	// (a stored line is not clipped: WITHIN of a line against a partial copy of itself never returns - a loop in the
@@ -556,6 +577,52 @@ func (r *recorder) query() error {
 	if len(e.Yes) > 0 {
 		r.st.NonEmpty++
 		r.st.Matches += len(e.Yes)
+	}
+	// a named cell (TILE, QUADKEY, HASH) is the rectangle its public definition says: the search with the name returns
+	// at least what the search with that rectangle moved slightly inwards returns, at most what it returns moved outwards
+	if rect, named := NamedRect(area); named && len(clips) == 0 && sparse == 0 {
+		in, out := Inset(rect, 1e-6), Inset(rect, -1e-6)
+		if in[0] < in[2] && in[1] < in[3] {
+			qb := newEvent("qb", r.o.Run)
+			qb.K, qb.Cmd, qb.Res = r.cur, cmdName, e.Res
+			for i, rc := range [][4]float64{in, out} {
+				bs := append([]string{strings.ToUpper(cmdName), r.key(), "LIMIT", bigLimit, "IDS"}, rectArgs("BOUNDS", rc)...)
+				bv, err := r.c.Do(bs...)
+				if err != nil {
+					if isTimeout(err) {
+						return &hungError{strings.Join(bs, " ")}
+					}
+					return err
+				}
+				bids, err := replyIDs(bv)
+				if err != nil {
+					return fmt.Errorf("%q: %v", strings.Join(bs, " "), err)
+				}
+				var ns []int
+				for _, s := range bids {
+					n, err := strconv.Atoi(strings.TrimPrefix(s, "o"))
+					if err != nil || !strings.HasPrefix(s, "o") {
+						n = -1
+					}
+					ns = append(ns, n)
+				}
+				if ns == nil {
+					ns = []int{}
+				}
+				if i == 0 {
+					qb.Yes = ns
+				} else {
+					qb.Tested = ns
+				}
+			}
+			*r.nextQ++
+			qb.Q = *r.nextQ
+			r.ev = append(r.ev, qb)
+			r.info = append(r.info, QueryInfo{Q: qb.Q, Run: r.o.Run, Region: r.g.Reg.Name, Search: strings.Join(search, " "),
+				Test: "the same search with BOUNDS " + strings.Join(rectArgs("", in)[1:], " ") + " (inside the named cell) and BOUNDS " +
+					strings.Join(rectArgs("", out)[1:], " ") + " (around it)", Kind: kind + "=rectangle", N: len(ids), Kinds: map[int]string{}})
+			r.st.Named++
+		}
 	}
 	return nil
 }
